@@ -14,3 +14,5 @@ import Cutadapt.Properties.C05
 #print axioms Cutadapt.C05.pair_adapters_both_or_neither
 #print axioms Cutadapt.C05.pair_adapters_trim
 #print axioms Cutadapt.C05.paired_rename_keeps_ids_matched
+#print axioms Cutadapt.C05.generated_pair_decisions_documented
+#print axioms Cutadapt.C05.filter_modes_documented
